@@ -25,6 +25,20 @@ pub struct Inner {
     pub delivered: Vec<usize>,
     /// how often EOF has been reported; a reader that keeps reading after EOF is spinning
     pub eof_polls: usize,
+    /// how the transport takes writes: each poll_write consumes the step at the front. Empty = take everything.
+    pub write_script: VecDeque<WriteStep>,
+    /// a write is parked at a `Block` step
+    pub write_blocked: bool,
+    pub write_waker: Option<Waker>,
+}
+
+/// one step of a scripted write side (a transmit path that takes a frame in pieces / is full for a while)
+#[derive(Clone, Copy, Debug, PartialEq, Eq)]
+pub enum WriteStep {
+    /// take at most this many bytes of the write that is offered
+    Accept(usize),
+    /// take nothing (Pending) until `release_write` is called
+    Block,
 }
 
 #[derive(Clone, Default)]
@@ -56,6 +70,23 @@ impl Wire {
     }
     pub fn fail_next_write(&self, kind: std::io::ErrorKind) {
         self.0.lock().unwrap().fail_write = Some(kind);
+    }
+    pub fn script_writes(&self, steps: &[WriteStep]) {
+        self.0.lock().unwrap().write_script.extend(steps.iter().copied());
+    }
+    pub fn write_is_blocked(&self) -> bool {
+        self.0.lock().unwrap().write_blocked
+    }
+    /// the transmit path has room again: the `Block` step at the front is over
+    pub fn release_write(&self) {
+        let mut g = self.0.lock().unwrap();
+        if g.write_script.front() == Some(&WriteStep::Block) {
+            g.write_script.pop_front();
+        }
+        g.write_blocked = false;
+        if let Some(w) = g.write_waker.take() {
+            w.wake();
+        }
     }
     pub fn take_out(&self) -> Vec<Vec<u8>> {
         std::mem::take(&mut self.0.lock().unwrap().out)
@@ -103,13 +134,28 @@ impl AsyncRead for Wire {
 }
 
 impl AsyncWrite for Wire {
-    fn poll_write(self: Pin<&mut Self>, _cx: &mut Context<'_>, b: &[u8]) -> Poll<std::io::Result<usize>> {
+    fn poll_write(self: Pin<&mut Self>, cx: &mut Context<'_>, b: &[u8]) -> Poll<std::io::Result<usize>> {
         let mut g = self.0.lock().unwrap();
         if let Some(kind) = g.fail_write.take() {
             return Poll::Ready(Err(kind.into()));
         }
-        g.out.push(b.to_vec());
-        Poll::Ready(Ok(b.len()))
+        match g.write_script.front().copied() {
+            None => {
+                g.out.push(b.to_vec());
+                Poll::Ready(Ok(b.len()))
+            }
+            Some(WriteStep::Accept(k)) => {
+                g.write_script.pop_front();
+                let n = k.min(b.len());
+                g.out.push(b[..n].to_vec());
+                Poll::Ready(Ok(n))
+            }
+            Some(WriteStep::Block) => {
+                g.write_blocked = true;
+                g.write_waker = Some(cx.waker().clone());
+                Poll::Pending
+            }
+        }
     }
     fn poll_flush(self: Pin<&mut Self>, _cx: &mut Context<'_>) -> Poll<std::io::Result<()>> {
         Poll::Ready(Ok(()))
